@@ -183,3 +183,23 @@ pub fn link_chunk(dir: &Path, name: &str, as_name: &str) {
             .expect("symlink");
     }
 }
+
+/// Write chunk `name` of `<repo>/test_data` into `dir` under `as_name`, cut down to its first `keep` blocks: chunk file up
+/// to the end of block `keep-1`, the first `keep` secondary-index entries, and the primary index with every offset
+/// beyond them flattened (the later relative slots read as empty). A chunk simply holds as many blocks as were made
+/// in its slot range, so this is a well-formed chunk of a quieter chain.
+pub fn write_chunk_head(dir: &Path, name: &str, as_name: &str, keep: usize) {
+    let td = pvkit::corpus::test_data();
+    let rd = |ext: &str| std::fs::read(td.join(format!("{name}.{ext}"))).expect("read chunk file");
+    let (chunk, primary, secondary) = (rd("chunk"), rd("primary"), rd("secondary"));
+    let at = keep * ENTRY;
+    let end = if secondary.len() >= at + 8 { be64(&secondary[at..at + 8]) as usize } else { chunk.len() };
+    let mut np = vec![primary[0]];
+    for o in primary[1..].chunks_exact(4) {
+        np.extend_from_slice(&be32(o).min(at as u32).to_be_bytes());
+    }
+    let wr = |ext: &str, data: &[u8]| std::fs::write(dir.join(format!("{as_name}.{ext}")), data).expect("write chunk file");
+    wr("chunk", &chunk[..end]);
+    wr("primary", &np);
+    wr("secondary", &secondary[..at.min(secondary.len())]);
+}
